@@ -357,3 +357,29 @@ def register(ex):
       has_stmt(BASE, "RL4COEnvBase.__setstate__", call_stmt("self.__dict__.update(state)")))
     p("genSetstateRestoresRng", "Bool", "true", "common/base.py:__setstate__  `self.rng.set_state(state['rng'])`",
       has_stmt(BASE, "RL4COEnvBase.__setstate__", call_stmt("self.rng.set_state(state['rng'])")))
+
+    # ---- call-history independence of the dataset writers: tables updated in place must be LOCAL to the call ---------------
+    def table_is_local(func, name):
+        """'true' if `name = {…}` (a dict literal, `.copy()`, `dict(…)` or `{**…}`) is assigned inside `func` before use;
+        'false' if `func` reads or updates a module-level `name`; pattern-miss otherwise"""
+        def run():
+            tree = ex.parse(GD)
+            fn = ex.find_function(tree, func) if tree else None
+            if fn is None:
+                return None
+            for n in ast.walk(fn):
+                if isinstance(n, ast.Assign) and len(n.targets) == 1 and isinstance(n.targets[0], ast.Name) and n.targets[0].id == name:
+                    v = n.value
+                    if isinstance(v, ast.Dict) or (isinstance(v, ast.Call) and ex.norm(v.func) in ("dict", "copy.deepcopy", "copy.copy", f"{name}.copy")):
+                        return "true"
+            uses = any(isinstance(n, ast.Name) and n.id == name for n in ast.walk(fn))
+            module_level = any(isinstance(n, ast.Assign) and len(n.targets) == 1 and isinstance(n.targets[0], ast.Name) and n.targets[0].id == name
+                               for n in tree.body)
+            if uses and module_level:
+                return "false"
+            return None
+        return run
+
+    p("genDataVrpTableLocal", "Bool", "true",
+      "data/generate_data.py:generate_vrp_data  the `CAPACITIES` table that `capacities=` overrides update in place is a local of the call",
+      table_is_local("generate_vrp_data", "CAPACITIES"))
